@@ -407,6 +407,7 @@ def get_map_cxr_annots(annots) -> Tuple[str, list]:
 
 @macro(r'^MAP_CAR$')
 def expand_map_car(prim, annots, args) -> list:
+    assert len(args) == 1
     car_annot, var_annots = get_map_cxr_annots(annots)
     return [
         DUP,
@@ -430,6 +431,7 @@ def expand_map_car(prim, annots, args) -> list:
 
 @macro(r'^MAP_CDR$')
 def expand_map_cdr(prim, annots, args) -> list:
+    assert len(args) == 1
     cdr_annot, var_annots = get_map_cxr_annots(annots)
     return [
         DUP,
